@@ -1,4 +1,5 @@
 """C07 (partial): bit-field packing - the clauses whose truth is in the shape of the code."""
+import engine
 import bitio
 
 META = {
@@ -25,6 +26,6 @@ def run(ctx, res):
     bitio.rule_r_kind(prog, res)
     # the reviewed lower bound of the MSM cell-mask width relies on the MSM guards
     import msm, panics
-    msm.rule_guards(prog, res)
+    msm.rule_guards(prog, engine.Filtered(res, {"M-guards"}))
     inv = panics.Inventory(prog, res, "WIDTH", {"__patterns__": []})
     panics.check_residue_support(inv, res)
